@@ -129,6 +129,8 @@ func runProperty(t *testing.T, prop string) {
 	m.Gate("user_change_after_partial_refused", 3, "user name change after a partial success")
 	m.Gate("disconnect_by_failures", 20, "connection ended at the MaxAuthTries boundary")
 	m.Gate("success_at_last_permitted_attempt", 10, "success with MaxAuthTries-1 counted failures")
+	m.Gate("first_none_after_failures_disconnect", 6, "first none sent after MaxAuthTries-1 definite failures: counted, connection ended")
+	m.Gate("first_none_after_failures_below_limit", 3, "first none sent after fewer definite failures: counted but below the limit, dialogue continues")
 	m.Gate("cap128_disconnect_seen", 3, "128-request cap reached")
 	m.Gate("source_address_denied", 100, "source-address denial observed")
 	m.Gate("source_address_allowed", 60, "source-address present and matching on a success")
